@@ -318,6 +318,13 @@ def main(argv=None):
     for dlt in (1e-8, 0.5):
         core.guarded(rep, text, check_text, rep, drv, rng, text, dlt, "generalized_rush_larsen", rpts)
         rep.case(key=(text, dlt), nontrivial=True)
+    # ---- a state whose derivative is a relation (a flag that integrates the time above a threshold): the number 1 or 0, its
+    #      linearisation is identically zero, the slot gets the Euler update
+    text = "states(v=1, above=0.25)\nparameters(th=0.5)\ndv_dt = -v\ndabove_dt = Gt(v, th)\n"
+    fpts = [{"t": 0.0, "dt": dtv, "states": {"v": vv, "above": 0.25}, "params": {"th": 0.5}} for vv in (1.0, 0.25) for dtv in (0.1, 1.0)]
+    for fname in ("generalized_rush_larsen", "forward_generalized_rush_larsen"):
+        core.guarded(rep, text, check_text, rep, drv, rng, text, 1e-8, fname, fpts)
+        rep.case(key=(text, fname), nontrivial=True)
     # ---- random models
     for i in range(n):
         got = family.new_case(drv, rng, gen, rep, self_dep=0.85)
